@@ -4,10 +4,16 @@
 package fault
 
 import (
+	"context"
 	"encoding/hex"
+	stdjson "encoding/json"
 	"errors"
 	"fmt"
 	"io"
+	"math"
+	"os"
+	"strconv"
+	"syscall"
 
 	structform "github.com/elastic/go-structform"
 	"github.com/elastic/go-structform/gotype"
@@ -366,6 +372,12 @@ func checkProducer(x *simkit.Ctx, sc *Scenario, site string, total int, ks []int
 			inj = io.ErrUnexpectedEOF
 		case 3:
 			inj = io.ErrShortWrite
+		case 4:
+			// errors a visitor may well return: typed errors of the standard
+			// library, wrapped errors, and the library's OWN error values (a
+			// visitor that is, or wraps, an Unfolder / a parser / an encoder)
+			vals := foreignErrors()
+			inj = vals[(k/5+int(x.Clock%7))%len(vals)]
 		}
 		after := 0
 		fired := false
@@ -703,4 +715,72 @@ func trunc(s string, n int) string {
 		return s[:n] + "…"
 	}
 	return s
+}
+
+type valueErr struct{ code int }
+
+func (e valueErr) Error() string { return fmt.Sprintf("value error %d", e.code) }
+
+var foreignErrs []error
+
+// foreignErrors returns error values of many dynamic types, among them values
+// that the library itself produces (collected by provoking them once): the
+// identity of whatever the visitor returns must survive.
+func foreignErrors() []error {
+	if foreignErrs != nil {
+		return foreignErrs
+	}
+	out := []error{context.Canceled, context.DeadlineExceeded, os.ErrDeadlineExceeded, io.ErrClosedPipe, io.ErrNoProgress,
+		syscall.EINTR, syscall.ENOSPC, valueErr{7}, &os.PathError{Op: "write", Path: "/dev/full", Err: syscall.ENOSPC},
+		fmt.Errorf("wrapped: %w", io.EOF), errors.Join(io.EOF, io.ErrUnexpectedEOF)}
+	if _, err := strconv.ParseFloat("1e999", 64); err != nil {
+		out = append(out, err) // *strconv.NumError (range)
+	}
+	if _, err := strconv.Atoi("x"); err != nil {
+		out = append(out, err) // *strconv.NumError (syntax)
+	}
+	var je *stdjson.SyntaxError
+	if err := stdjson.Unmarshal([]byte("{"), new(interface{})); errors.As(err, &je) || err != nil {
+		out = append(out, err)
+	}
+	// the library's own error values
+	nop := simkit.NewTap(nil)
+	nop.NoRecord = true
+	for _, cd := range common.Codecs {
+		for _, in := range [][]byte{{0xff, 0xfe}, []byte("["), []byte("{\"a\""), {0x7b}, {0x5b, 0x23}, {0xc0}} {
+			if err := cd.Parse(in, nop); err != nil {
+				out = append(out, err)
+			}
+		}
+	}
+	mismatch := func(to interface{}, evs ...simkit.Ev) {
+		u, err := gotype.NewUnfolder(to)
+		if err != nil {
+			out = append(out, err)
+			return
+		}
+		for _, e := range evs {
+			if err := simkit.Emit(u, e, false); err != nil {
+				out = append(out, err)
+				return
+			}
+		}
+	}
+	mismatch(new(int), simkit.Ev{K: simkit.KStr, S: "x"})
+	mismatch(new([]bool), simkit.Ev{K: simkit.KStr, S: "x"})
+	mismatch(new([]int), simkit.Ev{K: simkit.KObjStart, I: -1})
+	mismatch(new(int), simkit.Ev{K: simkit.KArrStart, I: -1})
+	mismatch(new(model.Simple), simkit.Ev{K: simkit.KArrStart, I: -1})
+	mismatch(new(map[string]int), simkit.Ev{K: simkit.KObjStart, I: -1}, simkit.Ev{K: simkit.KStr, S: "not a key"})
+	mismatch(new(map[int]string))
+	w := simkit.NewWriter()
+	w.FailFrom = 0
+	if err := common.JSON.NewVisitor(w).OnFloat64(math.NaN()); err != nil {
+		out = append(out, err)
+	}
+	if err := gotype.Fold(make(chan int), nop); err != nil {
+		out = append(out, err)
+	}
+	foreignErrs = out
+	return out
 }
